@@ -83,7 +83,8 @@ def config(draw):
 
 
 def cases(tier):
-    return st.fixed_dictionaries({"doc": rd.doc_strategy().map(rd.fill_benign),
+    # (fnc: footnotes with one constant text, so that several footnotes of a document are equal)
+    return st.fixed_dictionaries({"doc": rd.doc_strategy(inline_kinds=rd.INLINE_KINDS + ["fnc"]).map(rd.fill_benign),
                                   "cfg": config()}).map(exclude_known)
 
 
@@ -251,6 +252,18 @@ def check(case):
             if len(total.get(m, [])) != 1:
                 return fail("marker-duplicated" if total.get(m) else "marker-lost:" + slot,
                             dict(ctx, marker=m, files=total.get(m, [])), feats)
+    # footnotes with equal text are still one footnote each: the constant text is listed as often
+    # as it was written, in the file of its unit
+    want_c = {}
+    for ui, c in rd.count_inlines(doc, "fnc").items():
+        want_c[P.file_of[ui]] = want_c.get(P.file_of[ui], 0) + c
+    if any(want_c.values()):
+        feats.add("equal-footnotes" if sum(want_c.values()) > 1 else "constant-footnote")
+        for n in P.order:
+            have = sum(ev[1].count("Ibid.") for ev in rd.Scan(files[node_file[n]]).events if ev[0] == "text")
+            if have != want_c.get(n, 0):
+                return fail("footnote-text-count:equal-footnotes",
+                            dict(ctx, file=node_file[n], node=str(n), expected=want_c.get(n, 0), got=have), feats)
     # index keys: shown in the file of the index unit only
     if doc.get("index"):
         idx_file = node_file[P.file_of[rd.INDEX_UNIT]]
